@@ -269,6 +269,14 @@ func reuseProbe(name string, node *onnx.NodeProto, inputs []*TJ, fresh *Result) 
 	if len(inputs) == 0 {
 		return nil
 	}
+	if name == "ConstantOfShape" && inputs[0] != nil {
+		// input 0 is the requested SHAPE: a warm-up that repeats an extent squares the allocation
+		for _, v := range inputs[0].Data {
+			if toF(v) > 64 {
+				return nil
+			}
+		}
+	}
 	want, _ := json.Marshal(fresh.Outs)
 	var bad []string
 	apply := func(op ops.Operator, ins []*TJ) (r *Result) {
